@@ -14,6 +14,7 @@ same container before it (reorderings, carry-over reassignments), so the graph s
 -/
 import TraitsVerif.Lemmas.LegacyMain
 import TraitsVerif.Lemmas.LegacySource
+import TraitsVerif.Lemmas.LegacyParser
 namespace TraitsVerif.Props.C16
 open TraitsVerif.Model.Legacy
 open TraitsVerif.Model.LisL (regSrc handleSrc eventOf methOf handlerFor)
@@ -130,6 +131,58 @@ theorem C16_dst_table (l : Link) (remove : Bool) :
     prog.anyListener ≠ prog.srcListener ∧ prog.anyListener ≠ prog.dstListener ∧
     prog.srcListener ≠ prog.dstListener :=
   ⟨TraitsVerif.Model.LisL.dst_hooks_table l remove, TraitsVerif.Model.LisL.constants_table⟩
+
+/-- `_register_anytrait` as translated: one anytrait notifier with the user's handler and nothing else
+(no named notifier, no walk into `next`), for every item flag and both `remove` values. -/
+theorem C16_anytrait_is_source (nn nt remove : Bool) (ty : Nat) :
+    (match TraitsVerif.Model.LisL.lookup prog.regMethods TraitsVerif.Model.LisL.RegName.anytrait with
+     | some b => TraitsVerif.Model.LisL.exec { nextNone := nn, notify := nt, type := ty, remove := remove } b {}
+     | none => { raised := true }) =
+      { anyHooks := [TraitsVerif.Model.LisL.Who.user], done := true } :=
+  TraitsVerif.Model.LisL.anytrait_table nn nt remove ty
+
+/-! ### the parser: what '.' and ':' mean -/
+
+/-- `ListenerParser(name, deferred=d, handler_type=ty).listener`, interpreted from the translated
+source of `parse`, `parse_group` and `parse_item` (Model/ParL.lean, token level), for EVERY name of
+the fragment `a₀ c₀ a₁ c₁ … final` with connectors '.' / ':' (any length, any identifiers): the
+result is the plain chain of `ListenerItem`s the model assumes (`modelChain`) — item `k` listens to
+`aₖ`, has `notify = (cₖ = '.')`, carries the handler's type only for `k = 0` and `ANY_LISTENER`
+afterwards (`Model.Legacy.typeOf`, the "bug-for-bug compatibility" of upstream #537 behind finding
+F63), is deferred only for `k = 0`, and the last item has `next = None`; no group, no wildcard, no
+metadata flag, no optional flag is produced.  Two-level names take the `simple_pat` shortcut of
+`parse`, longer ones `parse_group` / `parse_item`: both give the same chain. -/
+theorem C16_parser_is_source (ls : List (Nat × Bool)) (fin : Nat) (ty0 : LType) (d : Bool) :
+    TraitsVerif.Model.ParL.parseSrc TraitsVerif.Generated.LegacyProg.pprog
+        (TraitsVerif.Model.ParL.toksOf ls fin) d (TraitsVerif.Model.LisL.typeNum prog ty0)
+      = some (TraitsVerif.Model.ParL.modelChain ty0 d 0 ls fin) := by
+  rw [TraitsVerif.Model.ParL.parseSrc_chain, TraitsVerif.Model.ParL.chainFrom_model]
+
+/-- `ListenerGroup` as translated: `register` / `unregister` apply the items' own method to the same
+object in list order, `set_next` / `set_notify` forward to every item, and `parse_group` returns
+the single item itself for a one-element group. -/
+theorem C16_group_is_source {α σ : Type} (remove : Bool) (f : α → σ → σ) (items : List α) (s : σ) :
+    TraitsVerif.Model.ParL.groupReg TraitsVerif.Generated.LegacyProg.pprog remove f items s
+        = items.foldl (fun s it => f it s) s ∧
+    TraitsVerif.Generated.LegacyProg.pprog.groupSetNextForwards = true ∧
+    TraitsVerif.Generated.LegacyProg.pprog.groupSetNotifyForwards = true ∧
+    TraitsVerif.Generated.LegacyProg.pprog.groupUnwrapsSingle = true := by
+  cases remove <;> exact ⟨rfl, rfl, rfl, rfl⟩
+
+-- the interpreted parser on `[a, b].c` (tokens): a group of two items that share the next item `c`
+example :
+    TraitsVerif.Model.ParL.parseSrc TraitsVerif.Generated.LegacyProg.pprog
+      [.lbr, .name 0, .comma, .name 1, .rbr, .dot, .name 2] false 1 =
+    some (.group (.item { name := some 0, type := 1, deferred := false } (.item { name := some 2, type := 0, deferred := false } .nil))
+      (.group (.item { name := some 1, type := 1, deferred := false } (.item { name := some 2, type := 0, deferred := false } .nil))
+        .gnil)) := by rfl
+-- `a:b.c`
+example :
+    TraitsVerif.Model.ParL.parseSrc TraitsVerif.Generated.LegacyProg.pprog
+      (TraitsVerif.Model.ParL.toksOf [(0, false), (1, true)] 2) true 1 =
+    some (.item { name := some 0, notify := false, type := 1, deferred := true }
+      (.item { name := some 1, notify := true, type := 0, deferred := false }
+        (.item { name := some 2, type := 0, deferred := false } .nil))) := by rfl
 
 /-- Which handle_* method serves which trait (read off the translated `_register_<kind>`), for `.`
 and `:` links and every handler signature of the fragment. -/
